@@ -852,3 +852,9 @@ class FP:
 
     def __repr__(self):
         return f"FP({self.z})"
+
+
+def choice(prefix="choice_"):
+    """Nondeterministic Boolean (a fresh z3 Bool decided by the explorer)."""
+    cx = _ctx.cur()
+    return bool(SymBool(z3.Bool(cx.fresh_name(prefix))))
